@@ -369,3 +369,183 @@ impl Scenario for Throttle {
         v
     }
 }
+
+// -----------------------------------------------------------------------------------------
+// C15 (E2 part): the connection behaves by exactly the negotiated values
+
+pub struct Tuned;
+
+fn neg16(a: u16, b: u16) -> u16 {
+    match (a, b) {
+        (0, 0) => u16::MAX,
+        (0, x) | (x, 0) => x,
+        (a, b) => a.min(b),
+    }
+}
+fn neg32(a: u32, b: u32) -> u32 {
+    match (a, b) {
+        (0, 0) => u32::MAX,
+        (0, x) | (x, 0) => x,
+        (a, b) => a.min(b),
+    }
+}
+
+impl Scenario for Tuned {
+    fn name(&self) -> &'static str {
+        "tuned"
+    }
+    fn property(&self) -> &'static str {
+        "C15"
+    }
+    fn variants(&self, tier: &str) -> Vec<Value> {
+        // (client channel_max, frame_max, heartbeat) x (server ...)
+        let mut pairs = vec![
+            ((0u16, 0u32, 60u16), (3u16, 4096u32, 1u16)),
+            ((2, 8192, 1), (0, 0, 60)),
+            ((5, 4096, 2), (2, 8192, 1)),
+            ((2, 4097, 3), (5, 4096, 0)),
+            ((0, 0, 0), (4, 8192, 2)),
+            ((3, 0, 1), (3, 0, 1)),
+            ((1, 4096, 2), (65535, 131072, 3)),
+            ((0, 4095, 1), (0, 8192, 1)),
+            ((7, 8192, 1), (7, 4095, 1)),
+        ];
+        if tier == "thorough" {
+            pairs.extend([((65535, u32::MAX, 65535), (2, 4096, 1)), ((2, 4096, 1), (65535, u32::MAX, 65535)), ((0, 131072, 1), (3, 0, 2)), ((4, 0, 2), (0, 4104, 0))]);
+        }
+        pairs.into_iter().map(|(c, s)| json!({"client": [c.0, c.1, c.2], "server": [s.0, s.1, s.2]})).collect()
+    }
+    fn bound(&self, tier: &str, _p: &Value) -> usize {
+        if tier == "thorough" {
+            1
+        } else {
+            0
+        }
+    }
+    fn describe(&self) -> String {
+        "pairs of client options and server Tune (limits on either side, 0 = unlimited on either side, values above/below each other, a frame_max below the floor): the TuneOk on the wire must carry the negotiated values (or the attempt fails with FrameMaxTooSmall and no TuneOk); then the connection must behave by them: open_channel(Some(channel_max)) works and Some(channel_max+1) is refused, a body of three payload limits is split into frames of at most frame_max bytes, and over three negotiated heartbeat intervals of idleness (virtual time, the server keeps talking) the client sends something at least every interval - or nothing at all when the negotiated interval is 0".into()
+    }
+    fn build(&self, p: &Value) -> Built {
+        let c: Vec<u64> = p["client"].as_array().unwrap().iter().map(|x| x.as_u64().unwrap()).collect();
+        let s: Vec<u64> = p["server"].as_array().unwrap().iter().map(|x| x.as_u64().unwrap()).collect();
+        let mut hs = Handshake::default();
+        hs.tune = (s[0] as u16, s[1] as u32, s[2] as u16);
+        let mut broker = StdBroker::new(hs);
+        let hb = (c[2] as u16).min(s[2] as u16) as u64;
+        // the server keeps talking so that it is never declared dead
+        let hbf = frame_bytes(&amq_protocol::frame::AMQPFrame::Heartbeat(0));
+        if hb > 0 {
+            for i in 1..=8u64 {
+                broker.timed.push_back((i * hb * 500 * MS, hbf.clone()));
+            }
+        }
+        let mut cfg = EnvConfig::default();
+        cfg.horizon_ns = 400_000 * 1000 * MS;
+        let chmax = neg16(c[0] as u16, s[0] as u16);
+        let fmax = neg32(c[1] as u32, s[1] as u32);
+        let (c0, c1, c2) = (c[0] as u16, c[1] as u32, c[2] as u16);
+        Built {
+            broker: Box::new(broker),
+            cfg,
+            root: Box::new(move |ctx: Ctx| {
+                let options = ConnectionOptions::default().channel_max(c0).frame_max(c1).heartbeat(c2);
+                let mut conn = match open(&ctx, options, ConnectionTuning::default()) {
+                    Ok(c) => c,
+                    Err(e) => {
+                        ctx.log(format!("open -> Err({})", err_name(&e)));
+                        return;
+                    }
+                };
+                ctx.log("open -> Ok");
+                let top = conn.open_channel(Some(chmax));
+                ctx.log(format!("open_channel(max) -> {:?}", top.as_ref().map(|c| c.channel_id()).map_err(err_name)));
+                if chmax < u16::MAX {
+                    let over = conn.open_channel(Some(chmax + 1));
+                    ctx.log(format!("open_channel(max+1) -> {:?}", over.as_ref().map(|c| c.channel_id()).map_err(err_name)));
+                }
+                if let Ok(ch) = &top {
+                    let payload = (fmax as usize).min(9000).saturating_sub(8);
+                    let body = vec![7u8; 3 * payload + 1];
+                    let r = ch.basic_publish("", Publish::new(&body, "k"));
+                    ctx.log(format!("publish({}) -> {}", body.len(), res(&r)));
+                }
+                let t0 = ctx.now_ms();
+                ctx.log(format!("idle from {}", t0));
+                let idle = if hb > 0 { 3 * hb * 1000 + 200 } else { 200_000 };
+                ctx.sleep_ms(idle);
+                ctx.log(format!("idle until {}", ctx.now_ms()));
+                std::mem::forget(top);
+                let r = conn.close();
+                ctx.log(format!("close -> {}", res(&r)));
+            }),
+        }
+    }
+    fn check(&self, p: &Value, o: &Outcome, _w: &World) -> Vec<(String, String)> {
+        use amq_protocol::frame::AMQPFrame;
+        use amq_protocol::protocol::{connection as pc, AMQPClass};
+        let mut v = Vec::new();
+        let c: Vec<u64> = p["client"].as_array().unwrap().iter().map(|x| x.as_u64().unwrap()).collect();
+        let s: Vec<u64> = p["server"].as_array().unwrap().iter().map(|x| x.as_u64().unwrap()).collect();
+        let chmax = neg16(c[0] as u16, s[0] as u16);
+        let fmax = neg32(c[1] as u32, s[1] as u32);
+        let hb = (c[2] as u16).min(s[2] as u16);
+        let main = o.logs.get("main").cloned().unwrap_or_default();
+        let (envs, _) = wire_frames(o);
+        let tune_ok = envs.iter().find_map(|e| match e.decode() {
+            Some(AMQPFrame::Method(0, AMQPClass::Connection(pc::AMQPMethod::TuneOk(t)))) => Some(t),
+            _ => None,
+        });
+        if fmax < 4096 {
+            if main != vec!["open -> Err(FrameMaxTooSmall)".to_string()] || tune_ok.is_some() {
+                v.push(("tuned:frame-max-floor".into(), format!("negotiated frame_max {} is below 4096: log {:?}, TuneOk on the wire: {:?}", fmax, main, tune_ok)));
+            }
+            return v;
+        }
+        match &tune_ok {
+            None => v.push(("tuned:no-tune-ok".into(), format!("{:?}", main))),
+            Some(t) => {
+                if (t.channel_max, t.frame_max, t.heartbeat) != (chmax, fmax, hb) {
+                    v.push(("tuned:tune-ok-values".into(), format!("TuneOk {:?} expected ({}, {}, {})", t, chmax, fmax, hb)));
+                }
+            }
+        }
+        if !main.iter().any(|l| *l == format!("open_channel(max) -> Ok({})", chmax)) {
+            v.push(("tuned:channel-max-not-usable".into(), format!("{:?}", main)));
+        }
+        if chmax < u16::MAX && !main.iter().any(|l| *l == format!("open_channel(max+1) -> Err(\"UnavailableChannelId({})\")", chmax + 1)) {
+            v.push(("tuned:channel-above-max-accepted".into(), format!("{:?}", main)));
+        }
+        for e in envs.iter().filter(|e| e.ty == 3) {
+            if e.wire_len() > fmax as usize {
+                v.push(("tuned:frame-above-frame-max".into(), format!("body frame of {} bytes on the wire, negotiated frame_max {}", e.wire_len(), fmax)));
+                break;
+            }
+        }
+        // heartbeat timing by the announced interval
+        let t0 = main.iter().find_map(|l| l.strip_prefix("idle from ").and_then(|x| x.parse::<u64>().ok())).unwrap_or(0) * MS;
+        let t1 = main.iter().find_map(|l| l.strip_prefix("idle until ").and_then(|x| x.parse::<u64>().ok())).unwrap_or(0) * MS;
+        let n_hb = envs.iter().filter(|e| e.ty == 8).count();
+        if hb == 0 {
+            if n_hb > 0 {
+                v.push(("tuned:heartbeats-although-disabled".into(), format!("{} heartbeat frames written, negotiated interval 0", n_hb)));
+            }
+        } else {
+            let hn = hb as u64 * 1000 * MS;
+            let mut last = t0;
+            for (t, _) in o.write_times.iter().filter(|(t, _)| *t >= t0 && *t <= t1) {
+                if *t > last + hn + 10 * MS {
+                    v.push(("tuned:heartbeat-interval".into(), format!("idle client silent from {} ms to {} ms, negotiated heartbeat {} s", last / MS, t / MS, hb)));
+                    break;
+                }
+                last = *t;
+            }
+            if t1 > last + hn + 10 * MS {
+                v.push(("tuned:heartbeat-interval".into(), format!("idle client silent from {} ms to {} ms, negotiated heartbeat {} s", last / MS, t1 / MS, hb)));
+            }
+        }
+        if main.last().map(|s| s.as_str()) != Some("close -> Ok") {
+            v.push(("tuned:close".into(), format!("{:?}", main)));
+        }
+        v
+    }
+}
